@@ -1,4 +1,5 @@
 pub mod c02;
+pub mod c05;
 pub mod c06;
 pub mod c09;
 pub mod c10;
@@ -9,7 +10,7 @@ pub mod treecheck;
 use crate::core::Check;
 
 pub fn registry() -> Vec<&'static dyn Check> {
-    vec![&session::C01, &c02::C02, &session::C04, &c06::C06, &c09::C09, &c10::C10, &c13::C13]
+    vec![&session::C01, &c02::C02, &session::C04, &c05::C05, &c06::C06, &c09::C09, &c10::C10, &c13::C13]
 }
 
 pub fn find(id: &str) -> Option<&'static dyn Check> {
